@@ -59,7 +59,8 @@ func (p *FullIntraRequest) Unmarshal(rawPacket []byte) error {
 		return err
 	}
 
-	if len(rawPacket) < (headerLength + int(4*h.Length)) {
+	length := 4 * int(h.Length)
+	if len(rawPacket) < (headerLength + length) {
 		return errPacketTooShort
 	}
 
@@ -68,13 +69,13 @@ func (p *FullIntraRequest) Unmarshal(rawPacket []byte) error {
 	}
 
 	// The FCI field MUST contain one or more FIR entries
-	if 4*h.Length-firOffset <= 0 || (4*h.Length)%8 != 0 {
+	if length-firOffset <= 0 || length%8 != 0 {
 		return errBadLength
 	}
 
 	p.SenderSSRC = binary.BigEndian.Uint32(rawPacket[headerLength:])
 	p.MediaSSRC = binary.BigEndian.Uint32(rawPacket[headerLength+ssrcLength:])
-	for i := headerLength + firOffset; i < (headerLength + int(h.Length*4)); i += 8 {
+	for i := headerLength + firOffset; i < (headerLength + length); i += 8 {
 		p.FIR = append(p.FIR, FIREntry{
 			binary.BigEndian.Uint32(rawPacket[i:]),
 			rawPacket[i+4],
